@@ -516,6 +516,12 @@ PROPERTIES['C19']['obligations'] += [
     for op in ('Add', 'Subtract')
 ]
 PROPERTIES['C14']['obligations'] += [
+    dict(name='e2e_box_inf_n3', harness='c14_collider.cpp', entry='h_e2e_box_inf', defs={'VF_N': 3},
+         unwind={'default': 8}, backends=['minisat', 'kissat'], timeout=1200,
+         claim='Collider + Collisions with an UNBOUNDED query box (any coordinate may be +-infinity, as MinGap with an infinite search length, half-space and whole-space queries produce): exactly the leaves the closed-interval test accepts are reported, each once; only an empty box may be skipped',
+         bounds='N=3 finite leaf boxes |x|<=1e100 (min<=max not assumed), all sorted Morton arrays, query coordinates any non-NaN double including +-infinity', targets=['collider_internal::FindCollision (early exit for empty boxes)', 'Box::DoesOverlap(Box)', 'Collider::Collider'])
+]
+PROPERTIES['C14']['obligations'] += [
     dict(name='tree2d_query_n%d' % n, harness='c14_tree2d.cpp', entry='h_query', defs={'VF_N': n},
          unwind={'auto': True, 'start': 3, 'max': 80, 'rounds': 24}, recursion={'default': 4}, backends=['minisat', 'kissat'], timeout=3000,
          tiers=['quick', 'thorough'] if n == 9 else ['thorough'],
